@@ -18,6 +18,7 @@ package main
 // Failures that are listed defects are reported with r.Known(key, …); everything else is r.Fail.
 
 import (
+	"github.com/cosmos/cosmos-sdk/x/authz"
 	ethereumkeeper "github.com/KiraCore/sekai/x/ethereum/keeper"
 	ethereumtypes "github.com/KiraCore/sekai/x/ethereum/types"
 	simapp "github.com/KiraCore/sekai/app"
@@ -1178,6 +1179,43 @@ func (h *c17) relaySigned(signer, key, to int, amt int64) {
 	}
 }
 
+// wrappedSend: the guarded account `owner` signs a transaction whose only message is an authz MsgExec executed by itself
+// and carrying a bank send of its own coins. No model op: on the code as it is the message type is not routable at all
+// (the transaction does not even decode); if it ever is, the coins must still not leave without the custodians.
+func (h *c17) wrappedSend(owner, to int, amt int64) {
+	w := h.w
+	pre := h.snapshot()
+	var tx []byte
+	func() {
+		defer func() { recover() }()
+		exec := authz.NewMsgExec(w.addrs[owner], []sdk.Msg{banktypes.NewMsgSend(w.addrs[owner], w.addrs[to], ukex(amt))})
+		tx = w.MustSign([]sdk.Msg{&exec}, owner, ukex(1000))
+	}()
+	if tx == nil {
+		h.r.Count("wrapped-send:cannot-be-built")
+		return
+	}
+	br := w.Block([][]byte{tx}, BlockOpts{})
+	if br.Panicked != nil {
+		h.r.Fail("C17/block/panic", fmt.Sprintf("wrapped-send block panicked in %s: %v", br.Phase, br.Panicked), h.replay())
+		return
+	}
+	w.ApplyUpdates(br.Updates)
+	post := h.snapshot()
+	okTx := len(br.Results) == 1 && br.Results[0].Code == 0
+	h.r.Count(fmt.Sprintf("wrapped-send:guarded=%v:accepted=%v", c17Guarded(pre[owner]), okTx))
+	h.r.Case(fmt.Sprintf("wrapped-send/%d/%v", owner, okTx), true)
+	if c17Guarded(pre[owner]) && post[owner].bal[0] < pre[owner].bal[0]-1000 {
+		h.r.Fail("C17/wrapped-send/guarded-coins-left-inside-another-message", fmt.Sprintf("the guarded account %d sent %d ukex to %d inside an authz MsgExec: %d ukex left it without any custodian approval", owner, amt, to, pre[owner].bal[0]-post[owner].bal[0]), h.replay())
+	}
+	if okTx || post[owner].bal[0] != pre[owner].bal[0] {
+		// the model has no such op: tell it the balances as they are now
+		for i := 0; i < c17NAcc; i++ {
+			h.op(fmt.Sprintf("custody obs %d", i), post[i].str)
+		}
+	}
+}
+
 // rotationStrand: a guarded account with a pending transfer and one of two approvals is rotated to a new address (its
 // owner proves the recovery secret). "Each custodian counts once": the custodian who approved before the rotation must
 // not be counted again afterwards - under the old or the new address -, and the coins leave only once both custodians
@@ -1834,6 +1872,9 @@ func runC17(r *Rec) {
 		h.relaySigned(1, 1, 7, 400000)
 		h.relaySigned(7, 1, 7, 300000)
 		h.relaySigned(7, 7, 8, 1000) // nobody guarded: an ordinary relay
+		// … and a bank send of the guarded account wrapped into a message that carries other messages (authz MsgExec, granter
+		// = grantee needs no grant): the custody decorator looks at the top-level messages of a transaction only
+		h.wrappedSend(1, 7, 250000)
 	}
 	h.keyMatrix()
 	h.policyMatrix()
